@@ -110,13 +110,38 @@ pub struct QuerySpec {
     pub raw_sql: Option<String>,
     #[serde(default)]
     pub holders_override: Option<String>,
+    /// Conjuncts applied inside a derived table around the first FROM item
+    /// (`FROM (SELECT * FROM t AS a WHERE ...) AS a`): the same selection as if they stood in the
+    /// outer WHERE, which is how the harness's own side queries read them.
+    #[serde(default)]
+    pub inner_where: Vec<String>,
 }
 
 impl QuerySpec {
     pub fn from_clause(&self) -> String {
+        self.from_clause_as(false)
+    }
+
+    /// FROM with the derived-table filter of the first item moved out (see `where_clause_flat`).
+    pub fn from_clause_flat(&self) -> String {
+        self.from_clause_as(true)
+    }
+
+    pub fn where_clause_flat(&self) -> String {
+        let all: Vec<String> = self.inner_where.iter().chain(self.where_.iter()).cloned().collect();
+        if all.is_empty() {
+            String::new()
+        } else {
+            format!(" WHERE {}", all.join(" AND "))
+        }
+    }
+
+    fn from_clause_as(&self, flat: bool) -> String {
         let mut s = String::new();
         for (i, f) in self.from.iter().enumerate() {
-            if i == 0 {
+            if i == 0 && !self.inner_where.is_empty() && !flat {
+                s.push_str(&format!("(SELECT * FROM {} AS {} WHERE {}) AS {}", f.table, f.alias, self.inner_where.join(" AND "), f.alias));
+            } else if i == 0 {
                 s.push_str(&format!("{} AS {}", f.table, f.alias));
             } else if f.kind == "CROSS JOIN" {
                 s.push_str(&format!(" CROSS JOIN {} AS {}", f.table, f.alias));
@@ -205,10 +230,10 @@ impl QuerySpec {
         format!(
             "SELECT DISTINCT {} FROM {} JOIN \"__own_{}\" AS __w ON __w.rid = {}.rowid{}",
             items.join(", "),
-            self.from_clause(),
+            self.from_clause_flat(),
             base_table,
             base_alias,
-            self.where_clause()
+            self.where_clause_flat()
         )
     }
 }
